@@ -54,6 +54,11 @@ def expand_tx(spec, pos):
         seq = [0xffffffff, 0xfffffffe, 0, _u32(sd, "q%d" % i)][_u32(sd, "qs%d" % i) % 4]
         idx = [0, 1, _u32(sd, "i%d" % i) % 300, _u32(sd, "i%d" % i)][_u32(sd, "is%d" % i) % 4]
         ins.append((_stream(sd, "ph%d" % i, 32), idx, _stream(sd, "ss%d" % i, (slen * (i + 1)) % 300), seq))
+    if pos == 0 and seed % 2 == 0:
+        # the first transaction of a real block is a coinbase: null previous hash, usually (not always) index 2^32-1, and
+        # whatever sequence number the miner chose - all of it is part of the transaction id
+        h, idx, scr, seq = ins[0]
+        ins[0] = (b"\0" * 32, [0xffffffff, 0xffffffff, idx][_u32(sd, "cbi") % 3], scr or b"\x03\x01\x02\x03", seq)
     outs = []
     for i in range(nout):
         val = int.from_bytes(_stream(sd, "v%d" % i, 8), "little") % (21 * 10 ** 14 + 1)
